@@ -1,12 +1,29 @@
 #!/bin/bash
 # usage: mutant_matrix.sh <out log> <mutant id> <checks...> [-- <mutant id> <checks...>]...
 # Runs /verif/seeded/<id>/patch.diff against the named checks (quick tier) via run_mutant.sh.
+# With MUT_SCRATCH=1, JOBS=<n> (default 1) changes are tried in parallel in n scratch slots.
 OUT="$1"; shift
 : > "$OUT"
+JOBS="${JOBS:-1}"
+specs=()
 while [ $# -gt 0 ]; do
-  id="$1"; shift; checks=()
-  while [ $# -gt 0 ] && [ "$1" != "--" ]; do checks+=("$1"); shift; done
+  spec=""
+  while [ $# -gt 0 ] && [ "$1" != "--" ]; do spec="$spec $1"; shift; done
   [ "${1:-}" = "--" ] && shift
-  echo "##### $id" >> "$OUT"
-  /verif/tools/run_mutant.sh /verif/seeded/$id/patch.diff "${checks[@]}" 2>&1 | tail -8 | cut -c1-400 >> "$OUT"
+  specs+=("$spec")
 done
+run_one() {
+  slot="$1"; shift
+  id="$1"; shift
+  { echo "##### $id"; MUT_SLOT="$slot" /verif/tools/run_mutant.sh /verif/seeded/$id/patch.diff "$@" 2>&1 | tail -8 | cut -c1-400; } > "/tmp/mm-part-$id.log"
+}
+i=0
+for spec in "${specs[@]}"; do
+  slot=$((i % JOBS)); i=$((i+1))
+  eval "pid=\${pid_$slot:-}"
+  [ -n "$pid" ] && wait "$pid"
+  run_one "$slot" $spec &
+  eval "pid_$slot=$!"
+done
+wait
+for spec in "${specs[@]}"; do set -- $spec; cat "/tmp/mm-part-$1.log" >> "$OUT"; rm -f "/tmp/mm-part-$1.log"; done
